@@ -98,8 +98,11 @@ def predict(P2, model):
                                 inner['a'], inner['b'] = None, None
                             ik = PS.model_key(P2, inner)
                             if ik not in model.inputs:
-                                raise_unmodelled = True
                                 return None
+                            if model.inputs[ik][0] == 'e':
+                                # the inner call replays a recorded exception, which leaves the original body
+                                sites[s['sid']] = ('e', type(model.inputs[ik][1]).__name__)
+                                continue
                         if s['beh'] == 'raise':
                             sites[s['sid']] = ('e', V.ERRS[s.get('exc', 'Err')].__name__)
                         else:
